@@ -42,7 +42,7 @@ def build(which=("d1",)):
 # --------------------------------------------------------------------------------------------
 # TLC
 
-def tlc(name, cfg, module, cwd, workers=6, timeout=900, extra=None, env=None, java_opts="-Xmx6g -Xss64m"):
+def tlc(name, cfg, module, cwd, workers=6, timeout=900, extra=None, env=None, java_opts="-Xmx6g -Xss64m", budget=False):
     meta = os.path.join(WORK, "tlc", name)
     shutil.rmtree(meta, ignore_errors=True)
     os.makedirs(meta, exist_ok=True)
@@ -53,7 +53,11 @@ def tlc(name, cfg, module, cwd, workers=6, timeout=900, extra=None, env=None, ja
     t0 = time.time()
     try:
         rc, out = sh(cmd, cwd=cwd, timeout=timeout, env=env)
-    except subprocess.TimeoutExpired:
+    except subprocess.TimeoutExpired as ex:
+        if budget:
+            # a time-boxed exploration: what TLC had explored when the time was up (no error reported until then)
+            part = ex.output if isinstance(ex.output, str) else (ex.output or b"").decode("utf-8", "replace")
+            return -9, part + "\nTIME-BUDGET-EXHAUSTED\n", time.time() - t0
         raise ToolError("TLC %s timed out after %ss" % (name, timeout))
     finally:
         shutil.rmtree(meta, ignore_errors=True)
@@ -65,11 +69,21 @@ def tlc_stats(out):
     return {"generated": int(m.group(1)) if m else 0, "distinct": int(m.group(2)) if m else 0,
             "depth": int(d.group(1)) if d else 0}
 
-def model_check(name, cfg, module, expect_violation=None, workers=6, timeout=900):
+def model_check(name, cfg, module, expect_violation=None, workers=6, timeout=900, budget=False):
     """run a mechanism configuration. Returns a dict; raises ToolError on tool problems.
-    expect_violation: name of the invariant a deviation configuration must violate."""
-    rc, out, wall = tlc(name, cfg, module, os.path.join(SPECS, "mc"), workers=workers, timeout=timeout)
+    expect_violation: name of the invariant a deviation configuration must violate.
+    budget: the configuration is explored breadth-first for at most `timeout` seconds; running out of time is not
+    an error (the result says how far TLC got), a violation found within the time is reported as usual."""
+    rc, out, wall = tlc(name, cfg, module, os.path.join(SPECS, "mc"), workers=workers, timeout=timeout, budget=budget)
     st = tlc_stats(out)
+    if "TIME-BUDGET-EXHAUSTED" in out and not re.search(r"is violated|was violated|were violated|Error:", out):
+        pr = re.findall(r"Progress\((\d+)\) at [^:]*:[^:]*:[^:]*: ([\d,]+) states generated[^\n]*?, ([\d,]+) distinct states found", out)
+        if not pr:
+            raise ToolError("TLC %s: no progress within %ss:\n%s" % (name, timeout, out[-1500:]))
+        depth, gen, dist = pr[-1]
+        return {"config": name, "states": int(dist.replace(",", "")), "transitions": int(gen.replace(",", "")), "depth": int(depth),
+                "wall_s": round(wall, 1), "result": "ok", "complete": False,
+                "note": "time-boxed breadth-first exploration: no invariant violated in the states reached within %ss (all states up to about depth %s)" % (timeout, depth)}
     viol = re.search(r"Invariant (\w+) is violated|Temporal property (\w+) was violated|Temporal properties were violated|Error: Deadlock reached", out)
     res = {"config": name, "states": st["distinct"], "transitions": st["generated"], "depth": st["depth"], "wall_s": round(wall, 1)}
     if "Model checking completed. No error has been found" in out:
